@@ -479,7 +479,10 @@ pub fn install_panic_hook(quiet_all: bool) {
         else {
             String::new()
         };
-        if msg.contains(INJECTED) || quiet_all {
+        // panics raised by the harness' own code are never silenced: they make a
+        // run inconclusive and have to be seen
+        let own = info.location().map(|l| l.file().starts_with("src/")).unwrap_or(false);
+        if msg.contains(INJECTED) || (quiet_all && !own && std::env::var_os("VERIF_LOUD").is_none()) {
             return;
         }
         default(info);
